@@ -510,10 +510,22 @@ def check(run):
             run.count('kind_' + b['kind'])
             if b.get('events'):
                 run.count('feedback_events', len(b['events']))
+    # second tie: the output functions of Not/And/Or/Xor/Compare/Override regenerated from the source
+    gen_problem = common.generated_model(run, 'gen_cblocks.py', 'GenCBlocks.v', 'GenCBlocksProofs.v')
+    run.assumptions.append("tools/gen_cblocks.py (fail-closed Python-ast translator of the bundled combinational "
+                           "blocks, ~280 lines) is trusted to render the accepted shapes faithfully")
     res = common.standard_flow(run, spec, cases)
     for c, o, ch in res:
         for s in o.get('steps', []):
             run.count('step_' + s[0])
+    if gen_problem is not None:
+        run.add_obligation(False)
+        if not any(v['concrete'] for v in run.violations):
+            run.violation('translation', dict(correspondence='Gen/GenCBlocksProofs.v: generated_cblocks_are_model, '
+                                              'generated_compare_threshold, generated_signatures'),
+                          gen_problem, clause='generated_model', concrete=False)
+        else:
+            run.notes.append("generated model: " + gen_problem[:500])
 
 
 def replay(run, path):
